@@ -127,6 +127,9 @@ func runStageCase(in StageInput) (*common.Case, error) {
 	case "full":
 		shell = quote(stageArgs(in, root, "/dev/full"))
 		sinkTerm = "SAlwaysFail"
+	case "fullout": // no -o: the output goes to standard output, which is full
+		shell = quote(stageArgs(in, root, "")) + " > /dev/full"
+		sinkTerm = "SAlwaysFail"
 	case "closed":
 		shell = quote(stageArgs(in, root, "")) + " >&-"
 		sinkTerm = "SAlwaysFail"
@@ -159,7 +162,7 @@ func runStageCase(in StageInput) (*common.Case, error) {
 	raw, _ := json.Marshal(in)
 	var any interface{}
 	json.Unmarshal(raw, &any)
-	reached := in.Sink == "full" || in.Sink == "closed" || in.Sink == "badcomp" || (in.Sink == "limit" && int64(in.Limit) < size)
+	reached := in.Sink == "full" || in.Sink == "fullout" || in.Sink == "closed" || in.Sink == "badcomp" || (in.Sink == "limit" && int64(in.Limit) < size)
 	return &common.Case{Coq: term, Key: "stage:" + string(raw), Nontrivial: reached,
 		Classes: []string{"stagemaker", fmt.Sprintf("mode=%d", in.Mode), "sink=" + in.Sink},
 		Desc: map[string]interface{}{"input": map[string]interface{}{"stage": any},
@@ -169,7 +172,7 @@ func runStageCase(in StageInput) (*common.Case, error) {
 func genStageInput(r *rng.R) StageInput {
 	in := StageInput{Mode: r.Intn(8), Files: 1 + r.Intn(6), Size: 200 + r.Intn(6000)}
 	// (a closed stdout is no reliable failing sink: the descriptor number is reused by the next open)
-	sinks := []string{"full", "full", "limit", "limit", "limit", "none"}
+	sinks := []string{"full", "fullout", "fullout", "limit", "limit", "limit", "none"}
 	if in.Mode >= 5 {
 		sinks = append(sinks, "badcomp", "badcomp")
 	}
